@@ -247,23 +247,6 @@ def mutate(r, t):
     return t.replace('"', '"\\ud800', 1)
 
 
-def _f15(s):
-    # serde_json (without its float_roundtrip feature) parses long mantissas up to 1 ULP off the correctly rounded
-    # value: f64 parsing/printing is an oracle, floats are compared to 15 significant digits
-    return float("%.15g" % float(s))
-
-
-def _num_hook(s):
-    i = int(s)
-    return i if (-2 ** 63 <= i <= 2 ** 64 - 1 and s != "-0") else _f15(s)
-
-
-def canon_json_text(b):
-    """parsed form for comparing two printers modulo the f64 oracle (a float lexeme vs ryu's spelling); objects stay
-    ORDERED lists of pairs - member order is part of what is compared"""
-    return _json.loads(b.decode(), parse_int=_num_hook, parse_float=_f15, object_pairs_hook=lambda ps: ("obj", list(ps)))
-
-
 import re as _re
 _NUM = _re.compile(r"-?\d+(?:\.\d+)?(?:[eE][+-]?\d+)?")
 
@@ -282,6 +265,33 @@ def outside_f64_oracle(t):
     return False
 
 
+def _num_hook(s):
+    i = int(s)
+    return i if (-2 ** 63 <= i <= 2 ** 64 - 1 and s != "-0") else float(s)
+
+
+def canon_json_text(b):
+    """parsed form for comparing two printers modulo the f64 oracle (a float lexeme vs ryu's spelling); objects stay
+    ORDERED lists of pairs - member order is part of what is compared"""
+    return _json.loads(b.decode(), parse_int=_num_hook, object_pairs_hook=lambda ps: ("obj", list(ps)))
+
+
+def json_close(x, y):
+    """same structure, same member order, equal scalars; floats within 1e-14 relative (serde_json without its
+    float_roundtrip feature parses long mantissas a few ULP off the correctly rounded value: f64 is an oracle)"""
+    import math
+    if isinstance(x, float) or isinstance(y, float):
+        return isinstance(x, (int, float)) and isinstance(y, (int, float)) and not isinstance(x, bool) and not isinstance(y, bool) \
+            and (x == y or math.isclose(float(x), float(y), rel_tol=1e-14, abs_tol=0.0))
+    if type(x) != type(y):
+        return False
+    if isinstance(x, tuple):
+        return len(x[1]) == len(y[1]) and all(k1 == k2 and json_close(v1, v2) for (k1, v1), (k2, v2) in zip(x[1], y[1]))
+    if isinstance(x, list):
+        return len(x) == len(y) and all(json_close(a, b) for a, b in zip(x, y))
+    return x == y
+
+
 def has_float_lexeme(t):
     for m in _NUM.finditer(t):
         lx = m.group(0)
@@ -298,7 +308,7 @@ def same_output(a, b, text=None):
         return False
     if a.startswith("OK ") and b.startswith("OK "):
         try:
-            return canon_json_text(unxh(a[3:])) == canon_json_text(unxh(b[3:]))
+            return json_close(canon_json_text(unxh(a[3:])), canon_json_text(unxh(b[3:])))
         except Exception:
             return False
     return False
